@@ -218,6 +218,19 @@ Theorem check_gamma_sound : forall m o, check_gamma m o = true ->
 Proof. exact Checker.check_gamma_sound. Qed.
 Print Assumptions check_gamma_sound.
 
+(* LLNL-type databases: the checker that takes A, B, Bdot from the database's LLNL_AQUEOUS_MODEL_PARAMETERS grid
+   (bracket br = the two grid temperatures around the reported temperature and the grid values there), interpolated
+   linearly in exact arithmetic, not from the engine's DH_A / DH_B / DH_BDOT read-outs *)
+Theorem check_gamma_llnl_sound : forall z a0 lg mu tc tk law br,
+  check_gamma_llnl (GBdot z a0) lg mu tc tk law br = true ->
+  let T := Q2R tc in let T0 := Q2R (g_t0 br) in let T1 := Q2R (g_t1 br) in
+  Rabs (Q2R lg - bdot_dh (interpR T T0 T1 (Q2R (g_a0 br)) (Q2R (g_a1 br)))
+                         (interpR T T0 T1 (Q2R (g_b0 br)) (Q2R (g_b1 br)))
+                         (interpR T T0 T1 (Q2R (g_d0 br)) (Q2R (g_d1 br)))
+                         (Q2R z) (Q2R a0) (Q2R mu)) <= / 1000000000.
+Proof. exact Checker.check_gamma_llnl_sound. Qed.
+Print Assumptions check_gamma_llnl_sound.
+
 Theorem check_aw_sound : forall aw phi summ, check_aw aw phi summ = true ->
   Rabs (Q2R aw - water_activity (Q2R phi) (Q2R summ)) <= / 100000.
 Proof. exact Checker.check_aw_sound. Qed.
